@@ -29,8 +29,9 @@ KINDS = list(g.EDITS)
 
 def live_object(prog: dict, shape: int) -> dict:
     kind, _ = g.kind_for(prog.get("prefix", PREFIX), prog["namespaced"])
-    md = {"name": prog.get("name", g.NAME), "uid": "uid-live", "resourceVersion": "3"}
+    md = {"name": g.id_text(prog.get("name", g.NAME)), "uid": "uid-live", "resourceVersion": "3"}
     ns = prog.get("apiNs", g.NS if prog["namespaced"] else None)
+    ns = None if ns is None else g.id_text(ns)
     if prog["namespaced"]:
         md["namespace"] = ns
     if shape % 2 == 0:
@@ -86,6 +87,13 @@ def random_program(r) -> dict:
             "nameVia": r.random() < 0.3, "nsVia": r.random() < 0.3}
     if r.random() < 0.2:
         prog["name"] = r.choice(("other", "a-b", "x1"))
+    elif r.random() < 0.2:
+        # names / namespaces that are kept exactly as evaluated: blanks and newlines stay, numbers are written out
+        prog["name"] = r.choice(ODD_NAMES)
+        prog["nameVia"] = r.choice((True, "locals")) if not isinstance(prog["name"], str) or r.random() < 0.7 else False
+        if namespaced and r.random() < 0.5:
+            prog["apiNs"] = r.choice(ODD_NAMESPACES)
+            prog["nsVia"] = r.choice((True, "locals"))
     if namespaced and r.random() < 0.2:
         prog["apiNs"] = r.choice(("team-a", "default", "kube-system"))
     if not namespaced and r.random() < 0.25:
@@ -214,6 +222,76 @@ def with_prefix(progs: list, prefix: str) -> list:
         p["prefix"] = prefix
         p["suffix"] = f"-{i}"
     return out
+
+
+ODD_NAMES = (" obj", "obj\n", "obj ", "web\n", 7, 7.5, "7", "12", -3, "obj\tb")
+ODD_NAMESPACES = (" ns1", "ns1\n", "prod ", 12, "12")
+
+
+def repeat_case(r) -> dict:
+    """ONE prepared function reconciled 2-3 times with different inputs: name / namespace come from the inputs,
+    directly or through `locals` (so that the apiConfig expression itself reads no input)"""
+    namespaced = r.random() < 0.7
+    prog = {"namespaced": namespaced, "tmplForm": r.choice(("inline", "inline", "ref")), "edits": [], "benign": [],
+            "flags": {"owned": r.random() < 0.7}, "nameVia": r.choice((True, "locals", "locals")),
+            "nsVia": r.choice((True, "locals")) if namespaced else False}
+    for layer in g.LAYERS:
+        if r.random() < 0.15:
+            prog["edits"].append({"layer": layer, "kind": r.choice(KINDS), "via": r.random() < 0.4})
+    pool = list(NAMES) + [x for x in ODD_NAMES if r.random() < 0.3]
+    rounds = []
+    for name in r.sample(pool, r.choice((2, 2, 3))):
+        rd = {"name": name, "present": r.random() < 0.5}
+        if namespaced:
+            rd["apiNs"] = r.choice(NAMESPACES + tuple(x for x in ODD_NAMESPACES if r.random() < 0.2))
+        rounds.append(rd)
+    return {"repeat": prog, "rounds": rounds}
+
+
+def run_repeat(case: dict) -> list:
+    base = with_prefix([case["repeat"]], fresh_prefix())[0]
+    progs = []
+    for i, rd in enumerate(case["rounds"]):
+        p = copy.deepcopy(base)
+        p["name"] = rd["name"]
+        if "apiNs" in rd:
+            p["apiNs"] = rd["apiNs"]
+        p["stored"] = live_object_for(p, i) if rd.get("present") else None
+        progs.append(p)
+    return list(zip(progs, g.reconcile_rounds(progs)))
+
+
+def repeat_bad(case: dict, runs: list | None = None):
+    for n, (q, b) in enumerate(runs if runs is not None else run_repeat(case)):
+        bad = oracle(q, b)
+        if bad:
+            return (f"reconcile #{n + 1} of one prepared function (inputs name={q['name']!r}, "
+                    f"namespace={q.get('apiNs')!r}): {bad}")
+    return None
+
+
+def shrink_repeat(case: dict) -> dict:
+    small = copy.deepcopy(case)
+    i = 0
+    while len(small["rounds"]) > 1 and i < len(small["rounds"]):
+        trial = copy.deepcopy(small)
+        del trial["rounds"][i]
+        if repeat_bad(trial):
+            small = trial
+        else:
+            i += 1
+    for k, v in (("edits", []), ("tmplForm", "inline"), ("flags", {"owned": True})):
+        trial = copy.deepcopy(small)
+        trial["repeat"][k] = v
+        if trial != small and repeat_bad(trial):
+            small = trial
+    for rd in small["rounds"]:
+        if rd.get("present"):
+            trial = copy.deepcopy(small)
+            trial["rounds"][small["rounds"].index(rd)]["present"] = False
+            if repeat_bad(trial):
+                rd["present"] = False
+    return small
 
 
 def session_case(r) -> dict:
@@ -528,7 +606,8 @@ def run(tier: str) -> int:
             ck.evaluated()
             ck.count(f"corpus:{f.name}")
             bad = session_bad(case) if "session" in case else concurrent_bad(case) if "concurrent" in case else \
-                declared_bad(case) if "declared" in case else oracle(case["prog"], g.run_program(case["prog"]))
+                declared_bad(case) if "declared" in case else repeat_bad(case) if "repeat" in case else \
+                oracle(case["prog"], g.run_program(case["prog"]))
             if bad:
                 ck.violate(case, bad)
 
@@ -651,6 +730,40 @@ def run(tier: str) -> int:
                             "session request: method/endpoint/version/name/namespace-argument/body-identity")
     ck.cov["sessions"] = n_sessions
 
+    # ---- one prepared function reconciled several times with different inputs
+    n_repeat = 70 if tier == "quick" else 700
+    for _ in range(n_repeat):
+        case = repeat_case(r)
+        runs = run_repeat(case)
+        ck.count(f"repeated-reconciles:{len(runs)} name via {case['repeat']['nameVia']}")
+        try:
+            r_answers = drv.ask([b["model"] for _, b in runs])
+        except Exception:
+            r_answers = [None] * len(runs)
+        bad = repeat_bad(case, runs)
+        if bad:
+            if len(ck.violations) < 5:
+                small = shrink_repeat(case)
+                ck.violate(small, repeat_bad(small) or bad)
+            elif len(ck.violations) < 40:
+                ck.violate(case, bad)
+        for (q, b), ans in zip(runs, r_answers):
+            ck.evaluated()
+            obs = b["obs"]
+            req = g.impl_request(obs) if obs["prepared"] else None
+            if isinstance(req, dict) and req["method"] in ("POST", "PATCH"):
+                ck.nontriv(g.dumps(["repeat", case["repeat"], q["name"], q.get("apiNs"), req["method"]]))
+            if ans is None or "error" in ans or not obs["prepared"]:
+                continue
+            want = model_request(ans, b, q)
+            if want == "skip" or (obs["raised"] and want is None):
+                continue
+            mine = request_obs(req)
+            if want != mine or obs["raised"]:
+                ck.disagree(case, want, {"request": mine, "raised": obs["raised"]},
+                            "one function, several inputs: method/endpoint/version/name/namespace-argument/body-identity")
+    ck.cov["repeat_sessions"] = n_repeat
+
     # ---- several functions of the same apiVersion/kind that declare a different scope / plural
     n_declared = 80 if tier == "quick" else 800
     for _ in range(n_declared):
@@ -753,7 +866,10 @@ def run(tier: str) -> int:
              "re-prepared / another function of the kind is prepared (garbage collector held off so that whatever the "
              "test runner registered with kr8s is alive exactly then); plus 2-3 functions of the SAME apiVersion/kind "
              "whose apiConfig declares a different `namespaced` / `plural`, all prepared in a random order and only those "
-             "reconciled that declare what the kind was first registered with; plus groups of 2-3 "
+             "reconciled that declare what the kind was first registered with; plus ONE prepared function reconciled 2-3 "
+             "times with different inputs (name / namespace from inputs directly or through `locals`); names and "
+             "namespaces with leading / trailing blanks and newlines, numbers and numeral strings (kept / written out "
+             "exactly as evaluated); plus groups of 2-3 "
              "reconciles of one kind (different names / namespaces, one function with different inputs or different "
              "functions) in flight together under the virtual-time loop with every API call suspending — every request "
              "must carry the identity of its own reconcile; non-trivial = a POST or PATCH was sent by a program with an "
@@ -775,6 +891,9 @@ def replay(path: str) -> int:
         elif "declared" in case:
             bad = declared_bad(case)
             print("replay (functions of one kind declaring different scope/plural):", json.dumps(case), "::", bad)
+        elif "repeat" in case:
+            bad = repeat_bad(case)
+            print("replay (one prepared function, several inputs):", json.dumps(case), "::", bad)
         else:
             prog = case["prog"]
             b = g.run_program(prog)
@@ -783,10 +902,10 @@ def replay(path: str) -> int:
         rc = rc or (1 if bad else 0)
     for d in data.get("no_longer_checks", []):
         if d.get("kind") == "correspondence" and isinstance(d.get("case"), dict) and \
-                ("session" in d["case"] or "concurrent" in d["case"] or "declared" in d["case"]):
+                ("session" in d["case"] or "concurrent" in d["case"] or "declared" in d["case"] or "repeat" in d["case"]):
             case = d["case"]
             bad = session_bad(case) if "session" in case else concurrent_bad(case) if "concurrent" in case else \
-                declared_bad(case)
+                declared_bad(case) if "declared" in case else repeat_bad(case)
             print("replay (model/implementation, several functions):", json.dumps(case)[:800], "oracle ::", bad,
                   "model ->", json.dumps(d.get("model"), default=str)[:600], "impl ->", json.dumps(d.get("impl"), default=str)[:600])
             rc = 1
